@@ -165,8 +165,9 @@ PROPS = {
                 viol=lambda res: _trace_viol(res, "glr", "c03") + _table_viol("C03")(res)
                 + _mci_viol(res, "mci_glr", "C03")),
     "C07": dict(stages=["tables", "glr"], viol=lambda res: _trace_viol(res, "glr", "c07")),
-    "C04": dict(stages=["tables", "mci_lr"],
-                viol=lambda res: _table_viol("C04")(res) + _mci_viol(res, "mci_lr", "C04")),
+    "C04": dict(stages=["tables", "mci_lr", "mc_automaton"],
+                viol=lambda res: _table_viol("C04")(res) + _mci_viol(res, "mci_lr", "C04")
+                + _mci_viol(res, "mc_automaton", "C04")),
     "C12": dict(stages=["tables", "lr", "mci_lr", "glr"],
                 viol=lambda res: _trace_viol(res, "lr", "c12") + _mci_viol(res, "mci_lr", "C12")
                 + _trace_viol(res, "glr", "c12")),
